@@ -123,7 +123,8 @@ ActionOps ==
   \cup {[op |-> "SetHeaderFooterDistance", hd |-> d.hd, fd |-> d.fd] : d \in HfPool \cup BadHfPool}
   \cup {[op |-> "SetGutterWidth", gut |-> g] : g \in GutPool \cup BadGutPool}
   \cup {[op |-> "SetDocGrid", gt |-> r.gt, gp |-> r.gp, gc |-> r.gc] : r \in GridPool \cup OpenGridPool \cup {Gr("", 312, 0)}}
-  \cup {[op |-> "ClearDocGrid"], [op |-> "GetPageSettings"], [op |-> "Reopen"]}
+  \cup {[op |-> "ClearDocGrid"], [op |-> "GetPageSettings"], [op |-> "Reopen"], [op |-> "SetDefaultPageSettings"]}
+  \cup (IF Scale >= 2 THEN {[op |-> n] : n \in Bystanders} ELSE {})
 
 Init == /\ st = InitSt /\ hist = <<>> /\ shadow = InitSt
         /\ last = [op |-> [op |-> "none"], acc |-> TRUE, t |-> 0]
@@ -155,6 +156,9 @@ Inv_MostRecent == \A f \in Fields : st[f] = shadow[f]
 \* document, so Mode "pairs" tests the implementation on every one of them
 Clean(s) == s.mt >= 0 /\ s.mr >= 0 /\ s.mb >= 0 /\ s.ml >= 0 /\ s.hd >= 0 /\ s.fd >= 0 /\ s.gut >= 0 /\ s.gc >= 0
 Inv_Installable == Clean(st) => st \in StatePool
+\* SpecMC explores onward only from states reached through valid requests (a CONSTRAINT): the outcome of an
+\* accepted open-class request (a negative value) is generated and checked, but not used as a starting point
+MCClean == Clean(st)
 \* a predefined name always comes with dimensions within the recognition tolerance of that size
 Inv_SizeNames == /\ st.n \in StdNames \cup {"Custom"}
                  /\ (st.n \in StdNames => AbsV(st.w - StdW(st.n)) < RecTol /\ AbsV(st.h - StdH(st.n)) < RecTol)
@@ -162,26 +166,31 @@ Inv_SizeNames == /\ st.n \in StdNames \cup {"Custom"}
 \* orientation is one of the two; custom dimensions stay inside the documented range
 Inv_Range == /\ st.or \in Orients
              /\ (st.n = "Custom" => ~OutOfRange(st.w, st.h))
-\* classification of the argument pools, in every state: documented-invalid requests are rejected and
-\* change nothing, valid ones are accepted and read back as given, open ones may go both ways
-Inv_Requests ==
+\* classification of the argument pools (it does not depend on the state, so it is checked once, as an
+\* assumption, on the state of a new document and on the all-default state): documented-invalid requests
+\* are rejected and change nothing, valid ones are accepted and read back as given, open ones go both ways
+RequestsOK(s) ==
   \A op \in ActionOps :
      /\ ArgClass(op) \in {"valid", "grid-unnamed"} =>
-          /\ Allowed(st, op, TRUE) /\ ~Allowed(st, op, FALSE)
-          /\ \A f \in Named(op) : Apply(st, op)[f] = Given(op, f)
-     /\ (ArgClass(op) \in InvalidClasses /\ ~Lenient(st, op)) =>
-          /\ Allowed(st, op, FALSE) /\ ~Allowed(st, op, TRUE) /\ Outcome(st, op, FALSE) = st
-     /\ Lenient(st, op) => Allowed(st, op, TRUE) /\ Allowed(st, op, FALSE)
+          /\ Allowed(s, op, TRUE) /\ ~Allowed(s, op, FALSE)
+          /\ \A f \in Named(op) : Apply(s, op)[f] = Given(op, f)
+     /\ (ArgClass(op) \in InvalidClasses /\ ~Lenient(s, op)) =>
+          /\ Allowed(s, op, FALSE) /\ ~Allowed(s, op, TRUE) /\ Outcome(s, op, FALSE) = s
+     /\ Lenient(s, op) => Allowed(s, op, TRUE) /\ Allowed(s, op, FALSE)
+\* every argument class the property speaks of occurs in the pool (non-vacuity of the classification)
+ClassesCovered ==
+  \A c \in InvalidClasses \cup OpenClasses \cup {"valid", "grid-unnamed"} : \E op \in ActionOps : ArgClass(op) = c
+ASSUME RequestsOK(InitSt) /\ RequestsOK(DefaultSt) /\ ClassesCovered
 
 \* a rejected call changes nothing
 Act_Rejected == [][~last'.acc => st' = st]_vars
 \* an accepted call gives every attribute it names the value it was given ...
-Act_ReadBack == [][last'.acc => \A f \in Named(last'.op) : st'[f] = Given(last'.op, f)]_vars
+Act_ReadBack == [][last'.acc => LET nm == Named(last'.op) IN \A f \in nm : st'[f] = Given(last'.op, f)]_vars
 \* ... and changes only what it names
-Act_OnlyNamed == [][\A f \in Fields \ Named(last'.op) : st'[f] = st[f]]_vars
+Act_OnlyNamed == [][LET un == Fields \ Named(last'.op) IN \A f \in un : st'[f] = st[f]]_vars
 \* margins / distances / gutter / grid calls never alter size or orientation (logical or physical)
-NonSizeOps == {"SetPageMargins", "SetHeaderFooterDistance", "SetGutterWidth", "SetDocGrid", "ClearDocGrid",
-               "GetPageSettings", "Reopen"}
+NonSizeOps == {"SetPageMargins", "SetHeaderFooterDistance", "SetGutterWidth", "SetDocGrid", "ClearDocGrid"}
+               \cup ReadOnly \cup Bystanders
 Act_SizeKept ==
   [][last'.op.op \in NonSizeOps =>
         /\ <<st'.n, st'.w, st'.h, st'.or>> = <<st.n, st.w, st.h, st.or>>
